@@ -6,6 +6,7 @@ import Proofs.GetLemmas
 import Proofs.Reshape
 import Proofs.Zip
 import Proofs.TensorWf
+import Proofs.Scatter
 
 /-!
 # C02 — each layer's forward pass computes its defining operator
@@ -201,5 +202,108 @@ theorem pad3d_get (x : V3 ℝ) (c ih iw p0 p1 : ℕ) (hx : L.Dims3 x c ih iw) (h
         simp [hn, hn2]
   | [] :: _, hc', hm => exact absurd (hm [] (List.mem_cons_self ..)).1 (by simp; omega)
   | [], hc', _ => simp at hc'; omega
+
+/-- **the convolution is the zero-padded, strided, dilated cross-correlation**: with `X̃` the input
+    extended by zero, `pre[f][i][j] = Σ_{c,h,w} K_f[c][h][w] · X̃[c][i·s₀ + h·d₀ − p₀][j·s₁ + w·d₁ − p₁]` -/
+theorem conv_cross_correlation (l : Conv ℝ) (x : V3 ℝ) (c ih iw : ℕ) (hx : L.Dims3 x c ih iw) (hc : 0 < c) (hih : 0 < ih)
+    (k : V3 ℝ) (kc kh kw i j : ℕ) :
+    ∃ xp, Tensor.pad3d x (ih + 2 * l.padding.1) (iw + 2 * l.padding.2) = .ok xp ∧
+      Conv.convolveAt l xp k kc kh kw (ih + 2 * l.padding.1) (iw + 2 * l.padding.2) i j =
+        ∑ cc ∈ range kc, ∑ h ∈ range kh, ∑ w ∈ range kw,
+          L.get3D 0 k cc h w *
+            (if l.padding.1 ≤ i * l.stride.1 + h * l.dilation.1 ∧ i * l.stride.1 + h * l.dilation.1 < l.padding.1 + ih ∧
+                l.padding.2 ≤ j * l.stride.2 + w * l.dilation.2 ∧ j * l.stride.2 + w * l.dilation.2 < l.padding.2 + iw
+             then L.get3D 0 x cc (i * l.stride.1 + h * l.dilation.1 - l.padding.1) (j * l.stride.2 + w * l.dilation.2 - l.padding.2)
+             else 0) := by
+  obtain ⟨xp, hp, hget⟩ := pad3d_get x c ih iw l.padding.1 l.padding.2 hx hc hih
+  refine ⟨xp, hp, ?_⟩
+  rw [convolveAt_spec]
+  apply Finset.sum_congr rfl; intro cc _
+  apply Finset.sum_congr rfl; intro h _
+  apply Finset.sum_congr rfl; intro w _
+  rw [hget]
+  by_cases hg : i * l.stride.1 + h * l.dilation.1 < ih + 2 * l.padding.1 ∧ j * l.stride.2 + w * l.dilation.2 < iw + 2 * l.padding.2
+  · rw [if_pos hg]
+  · rw [if_neg hg]
+    -- outside the padded extent the extended input is zero anyway
+    have : ¬ (l.padding.1 ≤ i * l.stride.1 + h * l.dilation.1 ∧ i * l.stride.1 + h * l.dilation.1 < l.padding.1 + ih ∧
+        l.padding.2 ≤ j * l.stride.2 + w * l.dilation.2 ∧ j * l.stride.2 + w * l.dilation.2 < l.padding.2 + iw) := by omega
+    rw [if_neg this]; ring
+
+/-! ### deconvolution: the scatter loops in gather form -/
+
+/-- the updates the deconvolution's scatter loops perform, in loop order -/
+noncomputable def deconvUpdates (x : V3 ℝ) (ks : List (V3 ℝ)) (kf kc : ℕ) (tp : List (ℕ × ℕ × ℕ × ℕ × ℕ × ℕ)) : List Scatter.Upd :=
+  (List.range kf).flatMap (fun k => (List.range kc).flatMap (fun c => tp.map (fun t =>
+    ⟨k, t.2.2.2.2.1, t.2.2.2.2.2, L.get3D 0 x c t.1 t.2.1 * L.get4D 0 ks k c t.2.2.1 t.2.2.2.1⟩)))
+
+theorem scatter_as_updates (x : V3 ℝ) (ks : List (V3 ℝ)) (kf kc : ℕ) (tp : List (ℕ × ℕ × ℕ × ℕ × ℕ × ℕ)) (oh ow : ℕ) :
+    Deconv.scatter x ks kf kc tp oh ow =
+      (deconvUpdates x ks kf kc tp).foldl (fun acc u => L.mod3 (· + u.v) acc u.c u.i u.j) (L.replicate3 kf oh ow 0) := by
+  unfold Deconv.scatter deconvUpdates
+  rw [List.foldl_flatMap]
+  congr 1
+  funext acc k
+  rw [List.foldl_flatMap]
+  congr 1
+  funext acc c
+  rw [List.foldl_map]
+
+theorem replicate3_inBounds (kf oh ow c i j : ℕ) (hc : c < kf) (hi : i < oh) (hj : j < ow) :
+    Scatter.InBounds (L.replicate3 kf oh ow (0 : ℝ)) c i j := by
+  unfold Scatter.InBounds L.replicate3 L.replicate2
+  simp only [List.getD_eq_getElem?_getD, List.length_replicate]
+  refine ⟨hc, ?_, ?_⟩
+  · simp [hc, hi]
+  · simp [hc, hi, hj]
+
+theorem replicate3_get (kf oh ow c i j : ℕ) : L.get3D 0 (L.replicate3 kf oh ow (0 : ℝ)) c i j = 0 := by
+  rw [L.get3D_eq]
+  unfold L.replicate3 L.replicate2
+  simp only [List.getD_eq_getElem?_getD]
+  by_cases hc : c < kf
+  · by_cases hi : i < oh
+    · by_cases hj : j < ow <;> simp [hc, hi, hj]
+    · simp [hc, hi]
+  · simp [hc]
+
+/-- every tap the deconvolution visits is inside the output (`oi < oh`, `oj < ow`) and satisfies
+    `oi = i·s₀ + ki − p₀`, `oj = j·s₁ + kj − p₁` with `i < ih`, `j < iw`, `ki < kh`, `kj < kw` -/
+theorem mem_taps (l : Deconv ℝ) (ih iw kh kw oh ow : ℕ) (t : ℕ × ℕ × ℕ × ℕ × ℕ × ℕ) :
+    t ∈ Deconv.taps l ih iw kh kw oh ow ↔
+      t.1 < ih ∧ t.2.1 < iw ∧ t.2.2.1 < kh ∧ t.2.2.2.1 < kw ∧
+      l.padding.1 ≤ t.1 * l.stride.1 + t.2.2.1 ∧ l.padding.2 ≤ t.2.1 * l.stride.2 + t.2.2.2.1 ∧
+      t.2.2.2.2.1 = t.1 * l.stride.1 + t.2.2.1 - l.padding.1 ∧ t.2.2.2.2.2 = t.2.1 * l.stride.2 + t.2.2.2.1 - l.padding.2 ∧
+      t.2.2.2.2.1 < oh ∧ t.2.2.2.2.2 < ow := by
+  obtain ⟨i, j, ki, kj, oi, oj⟩ := t
+  unfold Deconv.taps
+  simp only [List.mem_flatMap, List.mem_range, List.mem_filterMap]
+  constructor
+  · rintro ⟨i', hi, j', hj, ki', hki, kj', hkj, h⟩
+    split at h
+    · rename_i hcond
+      simp only [Option.some.injEq, Prod.mk.injEq] at h
+      obtain ⟨rfl, rfl, rfl, rfl, rfl, rfl⟩ := h
+      exact ⟨hi, hj, hki, hkj, hcond.1, hcond.2.1, rfl, rfl, hcond.2.2.1, hcond.2.2.2⟩
+    · simp at h
+  · rintro ⟨hi, hj, hki, hkj, hp1, hp2, ho1, ho2, hb1, hb2⟩
+    refine ⟨i, hi, j, hj, ki, hki, kj, hkj, ?_⟩
+    subst ho1 ho2
+    rw [if_pos ⟨hp1, hp2, hb1, hb2⟩]
+
+/-- **the deconvolution is the strided transposed convolution cropped by the padding**: output position
+    `(k, o, q)` is the sum of `x[c][i][j] · K_k[c][ki][kj]` over exactly the `(c, i, j, ki, kj)` with
+    `i·s₀ + ki − p₀ = o` and `j·s₁ + kj − p₁ = q` -/
+theorem deconv_gather (l : Deconv ℝ) (x : V3 ℝ) (ks : List (V3 ℝ)) (kf kc ih iw kh kw oh ow k o q : ℕ) :
+    L.get3D 0 (Deconv.scatter x ks kf kc (Deconv.taps l ih iw kh kw oh ow) oh ow) k o q =
+      ((deconvUpdates x ks kf kc (Deconv.taps l ih iw kh kw oh ow)).map
+        (fun u => if u.c = k ∧ u.i = o ∧ u.j = q then u.v else 0)).sum := by
+  rw [scatter_as_updates, Scatter.scatter_get, replicate3_get, zero_add]
+  intro u hu
+  unfold deconvUpdates at hu
+  simp only [List.mem_flatMap, List.mem_range, List.mem_map] at hu
+  obtain ⟨k', hk', c', _, t, ht, rfl⟩ := hu
+  have := (mem_taps l ih iw kh kw oh ow t).mp ht
+  exact replicate3_inBounds kf oh ow k' _ _ hk' this.2.2.2.2.2.2.2.2.1 this.2.2.2.2.2.2.2.2.2
 
 end C02
